@@ -126,6 +126,7 @@ type Opts struct {
 	MaxViol   int
 	Selftest  bool   // execute every run twice and compare fingerprints
 	FpLog     string // write one line per run: run sub fingerprint violation-key
+	Marker    bool   // write the plan about to be executed to a marker file (crash attribution)
 }
 
 func runSeed(seed uint64, id string, run int) uint64 {
@@ -164,6 +165,7 @@ func MainArgs(args []string, checks map[string]Check) {
 		self    = flag.Bool("selftest", false, "run every plan twice and compare fingerprints")
 		one     = flag.Int("one", -1, "execute just this run index verbosely")
 		fplog   = flag.String("fplog", "", "write per-run fingerprints to this file")
+		marker  = flag.Bool("marker", false, "record the plan about to run, so that a crash of this process can be attributed")
 	)
 	flag.Parse(args)
 	if *replay != "" {
@@ -178,7 +180,7 @@ func MainArgs(args []string, checks map[string]Check) {
 		os.Exit(2)
 	}
 	o := Opts{Seed: *seed, Tier: *tier, Worker: *worker, Workers: *workers, Runs: *runs, Budget: *budget,
-		OutDir: *outDir, ReplayDir: *repDir, Flavour: *flavour, RepoTree: *tree, MaxViol: 4, Selftest: *self, FpLog: *fplog}
+		OutDir: *outDir, ReplayDir: *repDir, Flavour: *flavour, RepoTree: *tree, MaxViol: 4, Selftest: *self, FpLog: *fplog, Marker: *marker}
 	if *one >= 0 {
 		runOne(c, o, *one)
 		return
@@ -256,6 +258,12 @@ func RunBatch(c Check, o Opts) *WorkerResult {
 		for sub, p := range plans {
 			tape := simrt.NewTape(simrt.NewRand(simrt.Mix(rs, uint64(sub), 77)), strat)
 			raceBefore := simrt.RaceErrors()
+			if o.Marker {
+				mk := Replay{Property: c.ID(), Oracle: "crash", Key: "crash", Message: "the driver process died while executing this plan", Seed: o.Seed, Run: run, Sub: sub,
+					Tier: o.Tier, Flavour: o.Flavour, RepoTree: o.RepoTree, Plan: p}
+				mb, _ := json.Marshal(&mk)
+				os.WriteFile(filepath.Join(o.OutDir, fmt.Sprintf("marker-%s-%s-%d.json", c.ID(), o.Flavour, o.Worker)), mb, 0644)
+			}
 			out := c.Exec(p, tape, false)
 			if d := simrt.RaceErrors() - raceBefore; d > 0 && out.Violation == nil && out.Infra == "" {
 				res.RaceErrors += d
